@@ -384,6 +384,9 @@ class Project:
     which scan all functions do not read the same statements twice, once in
     their context and once out of it.  Only private functions and functions
     the reference tree does not have are dropped."""
+    if os.environ.get('FDLSTATIC_KEEP_EXPANDED'):
+      return   # the view is being written out as source (unit tests of the
+               # tree may still name private helpers)
     expanded = set()
     for s_ in self.inlined:
       for sep in (' <= ', ' <- '):
